@@ -66,7 +66,12 @@ def c04_events(run, d):
     rsp0 = {t["tid"] for t in report["threads"] if t.get("mode") == "rsp0"}
     exited = {s["tid"] for s in d["steps"] if s.get("k") == "exit"}
     kernel = set(d["oracle"]["tids"])
-    evs.append({"ev": "c04l", "origin": run["id"], "listed": [t["tid"] for t in ths], "expected": sorted(kernel - rsp0 - exited), "optional": sorted(exited)})
+    # threads that cannot be attached to: held by another tracer, or a zombie thread-group leader
+    unattachable = set((run.get("end") or {}).get("pretraced", []))
+    if scn["target"].get("leader_exits"):
+        unattachable.add(report["pid"])
+    evs.append({"ev": "c04l", "origin": run["id"], "listed": [t["tid"] for t in ths], "expected": sorted(kernel - rsp0 - exited - unattachable),
+                "optional": sorted(exited | unattachable)})
     return evs
 
 
